@@ -1957,7 +1957,17 @@ func c06SwitchTag(w *World, pf *ParserFacts, r *Result) {
 	rule := "R-C06-single"
 	n := 0
 	for _, fn := range w.Funcs("parser") {
-		if fn.Parent() != nil || !constructsNode(fn, "If") || !contains(scopeConstsIn(fn), "switch") {
+		if fn.Parent() != nil || !constructsNode(fn, "If") {
+			continue
+		}
+		// (the scope of the cases may be opened by a helper that reads one case)
+		isSwitch := false
+		for _, f := range helperClosure(w, fn, 2) {
+			if contains(scopeConstsIn(f), "switch") {
+				isSwitch = true
+			}
+		}
+		if !isSwitch {
 			continue
 		}
 		// the tag: left operand of the case comparisons
